@@ -33,7 +33,7 @@ TRUSTED = [
 ASSUMPTIONS = ['compose() of collections holding Set-Cookie / WWW-Authenticate / Proxy-Authenticate (field-specific split) is outside the model and judged by the oracle only',
 	'compose_parse_roundtrip assumes the stored names are canonical (what formatkey produces) and the values are as the parser stores them (no outer white space, no CR)']
 RULE = ('operation sequences (length <= 30) of set/get/contains/del/pop/append/parse/compose over names from the token alphabet in random letter case, registered names, invalid names '
-	'(separators, controls, 8-bit, ligatures), values over visible ASCII / Latin-1 / arbitrary Unicode (RFC 2047 on assignment); parse blocks with repeated fields, continuation lines, odd whitespace; '
+	'(separators, controls, 8-bit, ligatures), values over visible ASCII / Latin-1 / arbitrary Unicode (RFC 2047 on assignment), short and 40-200 octets long; parse blocks with repeated fields, continuation lines, odd whitespace; '
 	'non-trivial = sequence with >= 2 distinct surviving keys; distinct by final collection')
 
 TOKEN = "!#$%&'*+-.^_`|~0123456789abcdefghijklmnopqrstuvwxyzABCDEFGHIJKLMNOPQRSTUVWXYZ"
@@ -62,6 +62,11 @@ def gen_value(rng):
 		return ''.join(rng.choice('ab ,;=?"\t') for _ in range(rng.randrange(0, 8))).strip().encode()
 	if r < 0.9:
 		return bytes(rng.randrange(0xa0, 0x100) for _ in range(rng.randrange(1, 5)))
+	if r < 0.93:
+		# long text: the encoded word of a value of 40-200 octets (line-length limits of base64 helpers are 57 / 76)
+		return unicode_text(rng, rng.choice((19, 20, 25, 40, 60)))
+	if r < 0.95:
+		return ''.join(chr(rng.randrange(0x21, 0x7f)) for _ in range(rng.choice((75, 76, 77, 200, 1000)))).encode()
 	return unicode_text(rng, rng.randrange(1, 5))  # str: goes through encode_rfc2047
 
 
@@ -194,8 +199,11 @@ def oracle(case):
 	ops = case[1]
 	ref = {}       # lower-case name -> value bytes (what the collection must answer), None = unknown (after parse/append combos)
 	h = Headers()
+	dirty = False
 	for op in ops:
 		k = op[0]
+		if k == 'R' and (b'\n' in op[1].replace(b'\r\n', b'') or b'\r' in op[1].replace(b'\r\n', b'')):
+			dirty = True
 		name = op[1] if len(op) > 1 and k != 'R' else None
 		try:
 			if k in 'SA' and is_bad_name(name):
@@ -204,6 +212,8 @@ def oracle(case):
 				except InvalidHeader:
 					continue
 				return {'what': 'invalid field name accepted on assignment', 'name': name.decode('latin-1'), 'finding': None}
+			if k in 'SA' and any(c in (op[2] if isinstance(op[2], str) else op[2].decode('latin-1')) for c in u'\r\n\x0b\x0c\x1c\x1d\x1e\x85\u2028\u2029'):
+				dirty = True      # the caller put a line break into a value: composing it is the caller's problem
 			if k == 'S':
 				h[name] = op[2]
 				ref[name.lower()] = enc_value(op[2])
@@ -283,6 +293,8 @@ def oracle(case):
 				if not wire.endswith(b'\r\n'):
 					return {'what': 'composed header section is not CRLF terminated', 'finding': None}
 				if any(b'\r' in v or b'\n' in v for v in dict.values(h)):
+					if not dirty:
+						return {'what': 'a stored field value contains a line break although no assigned value did: the composed section has a broken line', 'wire': wire[:300].hex(), 'finding': None}
 					continue
 				h2 = Headers()
 				h2.parse(wire[:-4] if wire.endswith(b'\r\n\r\n') else wire[:-2])
